@@ -420,8 +420,11 @@ def run_check(mod, tier, seed, replay=None):
   modname = mod.__name__
   impl = run_impl_parallel(modname, cases, jobs)
   reqs, spans = [], []
-  for c in cases:
-    r = mod.model_requests(c)
+  mr_obs = getattr(mod, 'model_requests_obs', None)   # variant that may look at the impl observation
+  for c, (o_, _, tb_) in zip(cases, impl):
+    if tb_ is not None:
+      raise InfraError(f'harness crashed on case {jdump(c)[:400]}:\n{tb_}')
+    r = mr_obs(c, o_) if mr_obs is not None else mod.model_requests(c)
     spans.append((len(reqs), len(reqs) + len(r)))
     reqs += r
   resps = lean.ask_many(reqs)
@@ -575,7 +578,8 @@ def do_replay(mod, ctx, path):
     return 1
   obs = mod.run_impl(case)
   orc = mod.oracle(case, obs)
-  rs = ctx.lean.ask_many(mod.model_requests(case))
+  mr_obs = getattr(mod, 'model_requests_obs', None)
+  rs = ctx.lean.ask_many(mr_obs(case, obs) if mr_obs is not None else mod.model_requests(case))
   mobs = mod.model_obs(case, rs)
   compare = getattr(mod, 'compare', None) or (lambda a, b: None if a == b else 'observations differ')
   d = compare(obs, mobs)
